@@ -7,23 +7,27 @@ oracle: momo vs libstdc++ directly (independent of the Coq model) + a python re-
         or removes exactly the elements visited from first to last" for the iterator-kind cases."""
 import os, hashlib, glob, json
 
-GROUPS = {1: ['uset', 'uset_o', 'umap', 'umap_o'], 2: ['ummap', 'ummap_o', 'vec'], 3: ['set', 'mset'], 4: ['map', 'mmap']}
+GROUPS = {1: ['uset', 'uset_o', 'umap', 'umap_o'], 2: ['ummap', 'ummap_o', 'vec'], 3: ['set', 'mset'], 4: ['map', 'mmap'],
+          5: ['smap', 'sumap', 'momap', 'moumap']}   # 5: std::string key/mapped with transparent functors; move-only mapped type
 GROUP_OF = {k: g for g, ks in GROUPS.items() for k in ks}
-GROUP_OF['mmk'] = 2; GROUP_OF['mmko'] = 2
+GROUP_OF['mmk'] = 2; GROUP_OF['mmko'] = 2; GROUP_OF['pbs'] = 2
 ALLOC_KINDS = {'uset': True, 'ummap': True, 'mset': True, 'map': True, 'vec': True}   # kinds instantiated with the stateful allocators
-ORDERED = {'set', 'mset', 'map', 'mmap'}
+ORDERED = {'set', 'mset', 'map', 'mmap', 'smap', 'momap'}
+CROSS_MERGE = {'set', 'mset', 'map', 'mmap'}
+MOVE_ONLY = {'momap', 'moumap'}
+STRINGS = {'smap', 'sumap'}
 MULTI = {'ummap', 'ummap_o', 'mset', 'mmap'}
-UNIQ_MAP = {'umap', 'umap_o', 'map'}
+UNIQ_MAP = {'umap', 'umap_o', 'map', 'smap', 'sumap', 'momap', 'moumap'}
 NO_NODES = {'ummap', 'ummap_o', 'vec'}
 INTERESTING = {'insh', 'emph', 'tryh', 'ioah', 'xinsh', 'xins', 'merge', 'err', 'erre', 'erra', 'err0', 'err1', 'eri', 'erf',
-               'cmp', 'erif', 'ext', 'exti', 'at', 'errv', 'insn', 'insrv', 'insself', 'atv', 'swap', 'mov', 'cpy'}
+               'cmp', 'erif', 'ext', 'exti', 'at', 'errv', 'erloop', 'ernx', 'xmut', 'mrgm', 'mrgt', 'tryr', 'findh', 'eqrh', 'insm', 'insn', 'insrv', 'insself', 'atv', 'swap', 'mov', 'cpy'}
 
 RULE = ('cases = (a) random call sequences (10-60 calls on two containers of one of 11 container kinds; keys from a small range so that '
         'duplicates abound; unique payload ids; constant hash in 1/3 of the unordered cases; 5 allocator kinds for uset/ummap/mset/map/vec) '
         '+ (b) exhaustive hinted insertions (every sorted content over <=3 distinct keys up to length 4 x every hint position x every key '
-        'around the content, through insert/emplace_hint/try_emplace/insert_or_assign/node insert) + (c) every pair of iterators '
+        'around the content, through insert/emplace_hint/try_emplace/insert_or_assign/node insert) + (c) every pair of iterators and every `it = erase(it)` loop start '
         '(position x kind traversable/lookup-derived, or end) on unordered containers of <=4 elements (multimap: 12 key-group shapes) for '
-        'erase(first,last) + (d) aimed unordered_multimap == after erase_if / erase sequences. distinct = distinct case line; '
+        'erase(first,last) + (d) aimed unordered_multimap == after erase_if / erase sequences, identity-tagged multimap keys, std::string and move-only-mapped maps with heterogeneous lookup, push_back under a copy that throws at every position. distinct = distinct case line; '
         'non-trivial = the sequence contains at least one call of the kinds the property singles out (hinted insert, range/iterator erase, '
         'node transfer, merge, comparison, erase_if, at(), allocator-moving assignment/swap) and its result line is not made of skips only')
 
@@ -95,21 +99,32 @@ def gen_script(r, kind, nops, ak=0, ida=1, idb=1, hm=0):
     tbl = [('ins', 7), ('emp', 3), ('insc', 2), ('empp', 2), ('insh', 4), ('emph', 3), ('insr', 1), ('insl', 1), ('find', 3), ('cnt', 2),
            ('has', 1), ('eqr', 3), ('erk', 3), ('erf', 3), ('clr', 1), ('swap', 1), ('swp2', 1), ('cmp', 4), ('erif', 2), ('cpy', 1),
            ('mov', 1), ('cpc', 1), ('mvc', 1), ('asl', 1), ('sz', 1), ('erre', 2), ('erra', 1), ('err0', 1), ('err1', 2)]
+    tbl += [('erloop', 2), ('ernx', 2)]
     if kind in ORDERED: tbl += [('lb', 2), ('ub', 2), ('eri', 2), ('err', 4)]
+    if kind in CROSS_MERGE: tbl += [('mrgm', 2), ('mrgt', 2)]
+    if kind in STRINGS: tbl += [('findh', 3), ('cnth', 2), ('hash', 2), ('eqrh', 2)] + ([('lbh', 2), ('ubh', 2)] if kind in ORDERED else [])
+    if kind in UNIQ_MAP: tbl += [('tryr', 2), ('insm', 1)]
     if kind in UNIQ_MAP: tbl += [('at', 2), ('idx', 2), ('set', 2), ('setr', 1), ('try', 2), ('tryh', 2), ('ioa', 2), ('ioah', 2)]
-    if kind not in NO_NODES: tbl += [('ext', 2), ('exti', 2), ('xins', 3), ('xinsh', 2), ('merge', 2)]
+    if kind not in NO_NODES: tbl += [('ext', 2), ('exti', 2), ('xins', 3), ('xinsh', 2), ('merge', 2), ('xmut', 2)]
+    if kind in MOVE_ONLY: tbl = [(n, w) for (n, w) in tbl if n not in ('insc', 'insr', 'insl', 'cpy', 'cpc', 'asl')]
     names = [n for n, w in tbl for _ in range(w)]
     nodes_across = (ak == 0 or ida == idb)
     for _ in range(nops):
         o = r.choice(names); ci = c()
-        if o in ('ins', 'emp', 'insc', 'empp', 'set', 'setr', 'try', 'ioa'): ops.append('%s %d %s' % (o, ci, kv()))
+        if o in ('ins', 'emp', 'insc', 'empp', 'set', 'setr', 'try', 'tryr', 'ioa'): ops.append('%s %d %s' % (o, ci, kv()))
         elif o in ('insh', 'emph', 'tryh', 'ioah'):
             h = pos() if kind in ORDERED else r.below(2)
             ops.append('%s %d %d %s' % (o, ci, h, kv()))
+        elif o in ('mrgm', 'mrgt', 'insm'):
+            ops.append('%s %d %s' % (o, ci, ' '.join(kv() for _ in range(r.below(5)))))
+        elif o == 'xmut':
+            d = c() if nodes_across else ci
+            ops.append('xmut %d %d %d %d' % (ci, d, key(), key()))
+        elif o == 'erloop': m = r.range(1, 4); ops.append('erloop %d %d %d' % (ci, m, r.below(m)))
         elif o in ('insr', 'insl', 'asl'):
             n = r.below(4 if o == 'asl' else 5); ops.append('%s %d %s' % (o, ci, ' '.join(kv() for _ in range(n))))
-        elif o in ('find', 'cnt', 'has', 'eqr', 'lb', 'ub', 'erk', 'erre', 'err0', 'at', 'idx', 'ext'): ops.append('%s %d %d' % (o, ci, key()))
-        elif o in ('erf', 'err1'):
+        elif o in ('find', 'cnt', 'has', 'eqr', 'lb', 'ub', 'erk', 'erre', 'err0', 'at', 'idx', 'ext', 'findh', 'cnth', 'hash', 'eqrh', 'lbh', 'ubh'): ops.append('%s %d %d' % (o, ci, key()))
+        elif o in ('erf', 'err1', 'ernx'):
             k, v = r.choice(known) if (known and r.chance(5, 6)) else (key(), r.below(5))
             ops.append('%s %d %d %d' % (o, ci, k, v))
         elif o == 'eri': ops.append('eri %d %d' % (ci, pos()))
@@ -279,6 +294,7 @@ def three_way(ctx, exes, cases, have_model, label):
             a = momo[i] if i < len(momo) else '<missing>'; b = std[i] if i < len(std) else '<missing>'
             m = (model[i] if i < len(model) else '<missing>') if model is not None else None
             toks = set(s.strip().split(' ')[0] for s in cse.split(';')[1:])
+            if cse.startswith('pbs'): ctx.nontrivial.add(cse)
             if cse.startswith('mmk') and ' /  ' not in cse and not cse.split(' / ')[0].endswith(cse.split(' ')[1]):
                 ctx.nontrivial.add(cse)
             if toks & INTERESTING and any(t not in ('skip', 'none', '-') for t in a.split(' | ')[0].split(' ')):
@@ -310,6 +326,8 @@ def we_stage(ctx, exes, have_model, full):
         cs = []
         for (kind, hm, el), ln in zip(bs, lines):
             order = [tuple(map(int, t.split(':'))) for t in ln.split()]
+            for f in we_iters(len(order)):   # `for (it = f; it != end(); ) it = erase(it);` for both iterator kinds
+                cs.append(('wl %s %d %s / %d %d 0 0 / %s' % (kind, hm, ' '.join('%d:%d' % e for e in el), f[0], f[1], ' '.join('%d:%d' % e for e in order)), kind, order, f, None))
             for f in we_iters(len(order)):
                 for l in we_iters(len(order)):
                     cs.append(('we %s %d %s / %d %d %d %d / %s' % (kind, hm, ' '.join('%d:%d' % e for e in el), f[0], f[1], l[0], l[1],
@@ -330,6 +348,20 @@ def we_stage(ctx, exes, have_model, full):
                 if a != m:
                     ok_tie = False; bad.append((cse, a, m, 'wrapper erase model and momo disagree'))
                 else: ctx.traces_validated += 1
+            if l is None:   # erase loop: lookup-derived start removes one element (the rest of the key for the multimap), traversable start the rest
+                n = len(order); p = f[0]
+                if p < 0: gone = []
+                elif f[1]: gone = list(range(p, n))
+                elif kind.startswith('ummap'):
+                    e = p
+                    while e < n and order[e][0] == order[p][0]: e += 1
+                    gone = list(range(p, e))
+                else: gone = [p]
+                exp = 'n=%d rest=[%s]' % (len(gone), ','.join('%d:%d' % x for x in sorted(x for j, x in enumerate(order) if j not in gone)))
+                if gone: ctx.nontrivial.add(cse)
+                if a != exp:
+                    ok_or = False; bad.append((cse, a, exp, 'erase loop from a %s iterator did not remove what the documented semantics say' % ('traversable' if f[1] else 'lookup-derived')))
+                continue
             vis = py_walk(kind, order, f, l)
             if vis is None: continue            # not a valid range: behaviour not constrained
             if len(vis) >= 1: ctx.nontrivial.add(cse)
@@ -347,7 +379,12 @@ def we_stage(ctx, exes, have_model, full):
 
 def all_cases(ctx, scale):
     r = ctx.rng; cases = []
-    kinds = ['uset', 'uset_o', 'umap', 'umap_o', 'ummap', 'ummap_o', 'set', 'mset', 'map', 'mmap', 'vec']
+    kinds = ['uset', 'uset_o', 'umap', 'umap_o', 'ummap', 'ummap_o', 'set', 'mset', 'map', 'mmap', 'vec', 'smap', 'sumap', 'momap', 'moumap']
+    # vector: strong guarantee of push_back / emplace_back / insert(end) / push_back(v[0]) when the k-th element copy throws, for every k
+    for n in list(range(0, 10)) + [15, 16, 17, 31, 32, 33]:
+        for mode in range(4):
+            for extra in (0, 1, 3):
+                cases.append('pbs %d %d %d' % (n, mode, extra))
     for kind in kinds:
         for i in range(60 * scale):
             hm = 1 if (kind[0] == 'u' and i % 3 == 2) else 0
